@@ -31,9 +31,21 @@ def run(ctx):
                 G_any([allowed, G_try(re.escape(AB) + r"::validate_badge_is_present$")],
                       "deposit allowed OR badge is present"),
             ], "AccountBlueprint::deposit*", min_targets=2)
+            if "batch" not in fn:
+                # the verdict that opens the deposit is is_deposit_allowed's result and nothing else
+                for sb, tru, fal, si in b.call_bool_guards(re.escape(AB) + r"::is_deposit_allowed$"):
+                    nm = origin_names(b, si["op"])
+                    ctx.ob(f"{k}|verdict-is-the-deposit-rule", nm == {"call:" + AB + "::is_deposit_allowed"}, f"branch condition originates from {sorted(nm)}", b.loc(sb))
             if "batch" in fn:
                 # the emptiness test is on the list of buckets that failed is_deposit_allowed
                 cl = [x for x in ctx.bodies_of(name) if x.name != name]
+                # closed world: the per-bucket verdict closures consult the deposit rule and nothing else
+                dom = sorted({c[0] for x in cl for c in x.fn.calls if not re.match(r"^(<)?(core|alloc|std|indexmap)::", c[0])})
+                allowed_dom = [r"NativeBucket>::resource_address$", re.escape(AB) + r"::is_deposit_allowed$"]
+                extra = [d for d in dom if not any(re.search(a, d) for a in allowed_dom)]
+                ctx.ob(f"{k}|verdict-closures-consult-only-the-deposit-rule", not extra,
+                       "the per-bucket verdict closures call only resource_address and is_deposit_allowed" if not extra else
+                       f"the per-bucket verdict also depends on {extra}: the allow/deny decision is no longer the deposit rule alone", b.loc())
                 calls_allowed = any(x.calls(re.escape(AB) + r"::is_deposit_allowed$") for x in cl)
                 ctx.ob(f"{k}|offending-from-is_deposit_allowed", calls_allowed, "a closure of the batch function evaluates is_deposit_allowed per bucket", b.loc())
                 good_filter = False
